@@ -1,5 +1,6 @@
 import CovfieModel.Lemmas.HeapRefine
-/-! # C12 — Fields stay independent values under any history of construct / copy / move / assign / write / destroy -/
+/-! # C12 — Fields stay independent values under any history of construct / copy / move / assign / write /
+    layout conversion / dump-load / destroy -/
 namespace Covfie.C12
 open Covfie.Heap
 
@@ -34,6 +35,29 @@ theorem self_copy_assign (s : AState) (i : Nat) : astep s (.copyAssign i i) = s 
 theorem self_move_assign (s : AState) (i : Nat) : astep s (.moveAssign i i) = s := by
   simp only [astep]; cases s i <;> simp
 
+/-- a layout conversion builds exactly the source's value in the destination and touches nothing else -/
+theorem convert_value (s : AState) (d i : Nat) (c : List Nat) (hd : s d = none) (hs : s i = some (.live c)) :
+    astep s (.convert d i) d = some (.live c) ∧ ∀ j, j ≠ d → astep s (.convert d i) j = s j := by
+  simp only [astep, hd, hs]
+  exact ⟨by simp [upd], fun j hj => by simp [upd, hj]⟩
+
+/-- a dump / load round trip reproduces the source's value in the destination (whatever the destination held)
+    and touches nothing else -/
+theorem dumpLoad_value (s : AState) (d i : Nat) (c : List Nat) (hs : s i = some (.live c)) :
+    astep s (.dumpLoad d i) d = some (.live c) ∧ ∀ j, j ≠ d → astep s (.dumpLoad d i) j = s j := by
+  simp only [astep, hs]
+  exact ⟨by simp [upd], fun j hj => by simp [upd, hj]⟩
+
+/-- loading a field's own dump back into it leaves it unchanged -/
+theorem self_dumpLoad (s : AState) (i : Nat) : astep s (.dumpLoad i i) = s := by
+  simp only [astep]
+  cases hs : s i with
+  | none => rfl
+  | some v =>
+    cases v with
+    | moved n => rfl
+    | live c => funext j; by_cases e : j = i <;> simp [upd, e, hs]
+
 /-- no leak: once every slot has been destroyed the heap is empty -/
 theorem no_leak_when_all_destroyed (ops : List Op) (hall : ∀ i, (ops.foldl cstep cinit).slots i = none) (a : Addr) :
     (ops.foldl cstep cinit).heap a = none := by
@@ -46,8 +70,11 @@ theorem no_leak_when_all_destroyed (ops : List Op) (hall : ∀ i, (ops.foldl cst
 
 /-- non-vacuity: a history mixing all operation kinds, including self-assignment and use of a moved-from slot -/
 def exOps : List Op := [.ctor 0 3, .write 0 1 7, .copyCtor 1 0, .write 1 0 9, .moveCtor 2 0, .copyAssign 0 1,
-  .copyAssign 0 0, .moveAssign 1 2, .write 1 2 5, .dtor 2, .moveAssign 0 0]
-example : (exOps.foldl astep (abs cinit)) 0 = some (.live [9, 7, 0]) ∧
+  .copyAssign 0 0, .moveAssign 1 2, .write 1 2 5, .dtor 2, .moveAssign 0 0, .convert 2 1, .write 2 0 4, .dumpLoad 0 2,
+  .dumpLoad 2 2, .convert 3 0, .moveCtor 4 3, .convert 5 3, .dumpLoad 5 3]
+example : (exOps.foldl astep (abs cinit)) 0 = some (.live [4, 7, 5]) ∧
           (exOps.foldl astep (abs cinit)) 1 = some (.live [0, 7, 5]) ∧
-          (exOps.foldl astep (abs cinit)) 2 = none := by decide
+          (exOps.foldl astep (abs cinit)) 2 = some (.live [4, 7, 5]) ∧
+          (exOps.foldl astep (abs cinit)) 3 = some (.moved 3) ∧
+          (exOps.foldl astep (abs cinit)) 5 = none := by decide
 end Covfie.C12
